@@ -158,6 +158,11 @@ class PlaceEngine(object):
             sdram = [100000, 100000, 1000, 0][t.draw(4)]
         base = collections.OrderedDict([(par.Cores, cores), (par.SDRAM, sdram),
                                         (par.SRAM, 1024)])
+        # a machine described by its cores alone (chips can then be *full*)
+        self.cores_only = t.draw(5) == 0
+        if self.cores_only:
+            base = collections.OrderedDict([(par.Cores, cores)])
+            w.probe("cores_only_machine")
         exc = {}
         dead = set()
         for x in range(W):
@@ -170,6 +175,8 @@ class PlaceEngine(object):
                     items = [(par.Cores, t.draw(cores + 1)),
                              (par.SDRAM, t.draw(sdram + 1)),
                              (par.SRAM, 1024)]
+                    if self.cores_only:
+                        items = items[:1]
                     # (a chip's own dict need not list the resources in the
                     # order of the machine's)
                     r = t.draw_small(3, 0.7)
@@ -351,6 +358,12 @@ class PlaceEngine(object):
             for v in g.vertices_resources:
                 g.vertices_resources[v] = collections.OrderedDict(
                     [(par.Cores, 1)] if t.draw(5) else [])
+        if self.cores_only:
+            # vertices ask only for what the machine describes
+            for v, res in g.vertices_resources.items():
+                for k in list(res):
+                    if k is not par.Cores:
+                        del res[k]
         for v, res in g.vertices_resources.items():
             if not any(res.values()):
                 w.probe("vertex_needing_nothing")
@@ -361,6 +374,17 @@ class PlaceEngine(object):
             supply = sum(max(0, f.get(par.Cores, 0))
                          for f in self.free_after.values())
             complete = demand <= supply
+            if complete and supply - demand <= 40 and t.draw(3) == 0:
+                # fill the machine exactly, then a few vertices that need
+                # nothing at all (they fit on full chips)
+                w.probe("exact_fill_then_zero_need")
+                for _ in range(supply - demand):
+                    v = prgen.new_vertex(t, g, par, kind=0)
+                    g.vertices_resources[v] = collections.OrderedDict(
+                        [(par.Cores, 1)])
+                for _ in range(1 + t.draw(3)):
+                    v = prgen.new_vertex(t, g, par, kind=4)
+                    g.vertices_resources[v] = collections.OrderedDict()
         if complete:
             w.probe("completeness_instance")
         pname = self.pname = PLACERS[t.draw(len(PLACERS))]
